@@ -143,7 +143,7 @@ def run_check(prop, streams, argv, level_text='', trusted_base=(), assumptions=(
             obligations += o
             discharged += d
             broken.extend(msgs)
-        if translated:
+        if translated and not os.environ.get('VERIF_SKIP_T'):      # VERIF_SKIP_T: development knob of bin/seedtest
             # the translator tie: regenerate the Gallina definitions of the listed source modules from the current
             # source, type-check them and re-check the lemmas equating them with the hand-written model
             from py2v import run as py2v_run
